@@ -119,16 +119,67 @@ def bounded_compute_path(chk):
                 break
         if fail:
             break
-    # growth: work per apostrophe run stays bounded (32 states x fan-out 6)
-    for size in (200, 400, 800):
-        t = time.process_time()
-        styleanalyzer.compute_path([3, 2, 5, 4, 7] * (size // 5))
-        dt = time.process_time() - t
-        if dt > 5.0 and not fail:
-            fail = {"detail": f"compute_path on {size} runs took {dt:.1f}s", "witness": {"runs": size}, "class": "slow"}
+    # growth: work per apostrophe run stays bounded (32 states x fan-out 6), also when all successor states cost the same
+    import signal
+
+    class Stop(BaseException):
+        pass
+
+    def alarm(*_):
+        raise Stop()
+    old = signal.signal(signal.SIGALRM, alarm)
+    try:
+        for name, counts in [(f"mixed x{size}", [3, 2, 5, 4, 7] * (size // 5)) for size in (200, 400, 800)] + \
+                [(f"[2] + [{c}] x {k}", [2] + [c] * k) for c in (5, 3, 2, 4) for k in (16, 60, 400)] + \
+                [(f"[{c}] x {k}", [c] * k) for c in (5, 3) for k in (17, 61, 401)]:
+            if fail:
+                break
+            t = time.process_time()
+            signal.setitimer(signal.ITIMER_REAL, 20.0, 1.0)
+            try:
+                styleanalyzer.compute_path(list(counts))
+                dt = time.process_time() - t
+            except Stop:
+                dt = 99.0
+            finally:
+                signal.setitimer(signal.ITIMER_REAL, 0)
+            if dt > 5.0:
+                fail = {"detail": f"compute_path on apostrophe runs {name} took {'more than 20' if dt == 99.0 else f'{dt:.1f}'} s",
+                        "witness": {"counts": name, "wikitext": "".join("x" + "'" * c for c in counts[:80])}, "class": "slow"}
+    finally:
+        signal.signal(signal.SIGALRM, old)
     chk.bounded_result("compute_path_all_short_count_sequences", n, n, True,
-                       "all sequences of <= 5 apostrophe-run lengths over {2,3,4,5,6,9}: result length == number of runs, no exception; plus 200/400/800-run inputs under 5 s cpu",
+                       "all sequences of <= 5 apostrophe-run lengths over {2,3,4,5,6,9}: result length == number of runs, no exception; plus 200/400/800-run mixed inputs and runs of 16/60/400 equal groups (with and without an unbalanced opener) under 5 s cpu",
                        [fail] if fail else [])
+
+
+def p6_nested_parse_call_sites(chk):
+    """the bound on nested tag-body parses (depth counter and budget, ghosts carried in xopts) holds only if every nested
+    call of parse_txt hands the enclosing parse's options on: `xopts` itself or a copy of all of its state"""
+    import ast
+    from pyvc import source
+    m = source.module(CORE)
+    sites, bad = 0, []
+    for fn in ast.walk(m.tree):
+        if not isinstance(fn, ast.FunctionDef) or fn.name == "parse_txt":
+            continue
+        for n in ast.walk(fn):
+            if isinstance(n, ast.Call) and isinstance(n.func, ast.Name) and n.func.id == "parse_txt":
+                sites += 1
+                arg = n.args[1] if len(n.args) > 1 else next((k.value for k in n.keywords if k.arg == "xopts"), None)
+                ok = isinstance(arg, ast.Name) and arg.id == "xopts"
+                if isinstance(arg, ast.Call) and isinstance(arg.func, ast.Name) and arg.func.id == "XBunch":
+                    ok = any(k.arg is None and ast.unparse(k.value) == "xopts.__dict__" for k in arg.keywords)
+                if isinstance(arg, ast.Name) and arg.id != "xopts":
+                    # a local alias: every assignment to it in this function must be such a copy
+                    binds = [b.value for b in ast.walk(fn) if isinstance(b, ast.Assign) and any(isinstance(t, ast.Name) and t.id == arg.id for t in b.targets)]
+                    ok = bool(binds) and all(isinstance(b, ast.Call) and isinstance(b.func, ast.Name) and b.func.id == "XBunch"
+                                             and any(k.arg is None and ast.unparse(k.value) == "xopts.__dict__" for k in b.keywords) for b in binds)
+                if not ok:
+                    bad.append(f"{fn.name}:{n.lineno} {ast.unparse(n)[:120]}")
+    chk.static("core.nested_parse_txt_calls_carry_the_enclosing_options", sites >= 4 and not bad,
+               f"{sites} nested calls of parse_txt in refine/core.py; not handing on xopts / a full copy: {bad}",
+               {"call_sites": bad}, "nested-parse-options", None if not bad else False)
 
 
 def bounded_self_inclusion(chk):
@@ -147,16 +198,17 @@ def bounded_self_inclusion(chk):
     fails, n = [], 0
     old = signal.signal(signal.SIGALRM, alarm)
     try:
+        pg = '<pages index="T" from=1 to=1 />'
         for tag, body in (("ref", "<ref>{{T}}</ref>"), ("poem", "<poem>{{T}}</poem>"), ("gallery", "<gallery>\n{{T}}\n</gallery>"),
-                          ("mixed", "<ref>{{T}}</ref><poem>{{T}}</poem>")):
+                          ("mixed", "<ref>{{T}}</ref><poem>{{T}}</poem>"), ("pages", "p " + pg), ("pages+ref", pg + "<ref>{{T}}</ref>")):
             for k in (1, 2, 3, 4, 6):
                 n += 1
                 t0 = time.process_time()
                 signal.setitimer(signal.ITIMER_REAL, 30.0, 1.0)
                 try:
                     db = docs.DB("en")
-                    db.templates = {"T": body * k}
-                    uparser.parse_string("A", raw="{{T}}", wikidb=db, lang="en")
+                    db.templates = {"T": body * k, "T/1": body * k}
+                    uparser.parse_string("A", raw="{{T}}" if "pages" not in tag else pg, wikidb=db, lang="en")
                     took = time.process_time() - t0
                     why = None if took < 20.0 else f"took {took:.0f} s cpu"
                 except Stop:
@@ -166,15 +218,16 @@ def bounded_self_inclusion(chk):
                 finally:
                     signal.setitimer(signal.ITIMER_REAL, 0)
                 if why:
-                    fails.append({"detail": f"template T = {body!r} * {k}, article '{{{{T}}}}': {why}",
-                                  "witness": {"template_T": body * k, "article": "{{T}}"}, "class": f"self-inclusion:{tag}"})
+                    art = "{{T}}" if "pages" not in tag else pg
+                    fails.append({"detail": f"template pages T and T/1 = {body!r} * {k}, article {art!r}: {why}",
+                                  "witness": {"template_T": body * k, "article": art}, "class": f"self-inclusion:{tag}"})
                     break
             if fails:
                 break
     finally:
         signal.signal(signal.SIGALRM, old)
     chk.bounded_result("self_inclusion_through_tag_bodies", n, n, True,
-                       "a template including itself 1, 2, 3, 4, 6 times through <ref> / <poem> / <gallery> / mixed bodies: an article tree within 20 s cpu",
+                       "a template including itself 1, 2, 3, 4, 6 times through <ref> / <poem> / <gallery> / mixed bodies, and a page transcluding itself through <pages>: an article tree within 20 s cpu",
                        fails[:1])
 
 
@@ -191,6 +244,7 @@ def run(chk):  # noqa: F811
     p3_tokenize_precondition(chk)
     p4_regex_ambiguity(chk)
     p5_sections_progress(chk)
+    p6_nested_parse_call_sites(chk)
     bounded_compute_path(chk)
     bounded_self_inclusion(chk)
     bounded_parse(chk)
